@@ -310,8 +310,25 @@ func runCase(c *kit.Case, cf cfg) {
 		cmp.TickLater()
 	}
 	limit := timing.VTimeInPicoSec(total+10) * 2000 * 1000 * 1000 // 2000 ns per request
-	if err := engine.RunUntil(limit); err != nil {
-		c.Failf("rob/engine-error", "%v", err)
+	// Run in slices. A ROB that answers without end (duplicates) is cut off once
+	// the log is longer than any correct run can make it (a request causes at
+	// most 5 logged port events, a control command 2). A run in which no port
+	// of the ROB or of the stub saw any event for 20 us (>= 10000 ROB cycles;
+	// the longest scripted silence is a 200-cycle pause) is at rest or hung for
+	// good: what is unanswered then stays unanswered.
+	runaway, idleSlices := 8*total+64, 0
+	for t := timing.VTimeInPicoSec(0); t < limit && len(tap.Recs) <= runaway && idleSlices < 2; {
+		t += 10 * 1000 * 1000 // 10 us
+		before := len(tap.Recs)
+		if err := engine.RunUntil(t); err != nil {
+			c.Failf("rob/engine-error", "%v", err)
+			break
+		}
+		if len(tap.Recs) == before {
+			idleSlices++
+		} else {
+			idleSlices = 0
+		}
 	}
 
 	// ---- oracle ----
